@@ -7,8 +7,10 @@ mkdir -p "$D/repo"; cp -r /repo/src "$D/repo/src"
 (cd "$D/repo" && patch -p1 --quiet --no-backup-if-mismatch < "$SRC/patch.diff") || { echo "$PROP patch-failed"; exit 3; }
 if diff -rq /repo/src "$D/repo/src" >/dev/null; then echo "$PROP patch-noop"; exit 3; fi
 cd /tmp
-JAX_PLATFORMS=cpu PYTHONDONTWRITEBYTECODE=1 timeout 1800 /venv/bin/python "$SRC/demo.py" /repo/src > "$D/clean.log" 2>&1; c=$?
-JAX_PLATFORMS=cpu PYTHONDONTWRITEBYTECODE=1 timeout 1800 /venv/bin/python "$SRC/demo.py" "$D/repo/src" > "$D/mut.log" 2>&1; m=$?
+# most demos take the src directory; some take its parent ("source-root contains src")
+if grep -q 'rstrip("/") + "/src"\|contains src' "$SRC/demo.py"; then A=/repo; B="$D/repo"; else A=/repo/src; B="$D/repo/src"; fi
+JAX_PLATFORMS=cpu PYTHONDONTWRITEBYTECODE=1 timeout 1800 /venv/bin/python "$SRC/demo.py" $A > "$D/clean.log" 2>&1; c=$?
+JAX_PLATFORMS=cpu PYTHONDONTWRITEBYTECODE=1 timeout 1800 /venv/bin/python "$SRC/demo.py" "$B" > "$D/mut.log" 2>&1; m=$?
 cd /verif
 out=$(VERIF_REPO_SRC="$D/repo/src" ./check "$PROP" --no-evidence "$@" 2>&1); rc=$?
 echo "$PROP demo_clean=$c demo_patched=$m check_rc=$rc :: $(echo "$out" | grep -m1 -A1 '^VIOLATION' | tr '\n' ' ' | cut -c1-260) $(echo "$out" | tail -1 | cut -c1-160)"
